@@ -30,6 +30,7 @@ RawShapes   == [t : {"raw"}, kind : {"empty", "one", "three", "hdr-only", "zeros
 RtcpShapes  == TwccShapes \cup CcfbShapes \cup ReportShapes \cup XrShapes \cup FbShapes \cup RawShapes
 
 \* ---- incoming RTP -----------------------------------------------------------------------------------------
-RtpShapes   == [t : {"rtp"}, cc : {0, 2, 15}, ccactual : {"eq", "fewer"}, x : {"none", "one-ok", "two-ok", "len-over", "len-zero", "id0", "id15", "profile-other"},
+RtpShapes   == [t : {"rtp"}, cc : {0, 2, 15}, ccactual : {"eq", "fewer"}, x : {"none", "one-ok", "two-ok", "len-over", "len-zero", "id0", "id15", "profile-other",
+                                                                                           "one-short", "two-short", "two-empty", "one-long"},
                 pad : {"none", "ok", "zero", "over"}, plen : {0, 1, 20}, cut : {0, 1, 4, 11, 12}]
 =============================================================================
